@@ -52,6 +52,18 @@ def gen(rng, tier, no, wide=False):
         for k in range(rng.choice([130, 140, 270])):
             ev.append({"ph": "X", "cat": "cpu_op", "name": f"aten::vocab_r{big}_{k}", "pid": host["pid"], "tid": host["tid"],
                        "ts": t0 + 3 * k, "dur": 2})
+    # vocabulary inclusion: a rank other than the first one whose vocabulary contains every symbol of all the others (its
+    # local table is then as long as the global one, numbered differently)
+    if n >= 2 and rng.random() < 0.25:
+        sup = rng.choice(sorted(case["ranks"])[1:])
+        ev = case["ranks"][sup]
+        xs = [e for e in ev if e.get("ph") == "X" and "dur" in e]
+        t0 = max((e["ts"] + e.get("dur", 0) for e in xs), default=0) + 1000
+        host = next((e for e in xs if e.get("cat") == "cpu_op"), xs[0])
+        pairs = sorted({(str(e.get("name", "")), e["cat"]) for r, oe in case["ranks"].items() if r != sup
+                        for e in oe if e.get("ph") == "X" and "dur" in e and e.get("cat") not in (None, "Trace")})
+        for k, (nm, cat) in enumerate(pairs):
+            ev.append({"ph": "X", "cat": cat, "name": nm, "pid": host["pid"], "tid": host["tid"], "ts": t0 + 3 * k, "dur": 2})
     case["params"] = {"ops": ops, "mp": rng.random() < 0.6, "order": rng.sample(range(n), n),
                       "probe": (no % (4 if tier == "quick" else 3)) == 0, "mp_symbols": rng.random() < 0.2}
     return case
